@@ -1,3 +1,4 @@
 import RoGen.Catalogue
 import RoGen.Plugins
 import RoGen.SubjectLocks
+import RoGen.RateLimit
